@@ -208,10 +208,13 @@ type runner struct {
 	durDir  map[string]int
 	durDirL map[string]int
 
+	occ    map[string]int // occurrences of each hook point since the current operation began
+	occOp  int
 	manApp int // MANIFEST appends (or rewrites) since the current operation began
 	killAt int
 	ackLog *os.File
 	commTs []uint64 // real commit ts per op (0 = none)
+	live   [][]int  // visible state of the running DB after each op (no crash involved)
 	nkinds map[string]int
 }
 
@@ -323,6 +326,10 @@ func (r *runner) onEvent(ev vh.Event) {
 	if point == "op.start" {
 		r.manApp = 0
 	}
+	if r.occ == nil || r.occOp != r.op || point == "op.start" {
+		r.occ, r.occOp = map[string]int{}, r.op
+	}
+	r.occ[point]++
 	// MANIFEST appends that delete tables (the dropTree change set of DropAll, compactions)
 	if point == "fs.append" && len(ev.Args) > 1 && base(ev.Args[0]) == "MANIFEST" {
 		if b, ok := cur["MANIFEST"]; ok {
@@ -443,7 +450,7 @@ func (r *runner) onEvent(ev vh.Event) {
 
 	if r.killAt > 0 {
 		if r.n == r.killAt {
-			fmt.Fprintf(r.ackLog, "kill %d %s %d %v %d\n", r.n, point, r.op, r.inop, r.done)
+			fmt.Fprintf(r.ackLog, "kill %d %s %d %v %d %d\n", r.n, point, r.op, r.inop, r.done, r.occ[point])
 			r.ackLog.Sync()
 			os.Exit(137)
 		}
@@ -574,10 +581,10 @@ func (r *runner) open() error {
 }
 
 func (r *runner) drainFlusher() error {
-	deadline := time.Now().Add(30 * time.Second)
+	deadline := time.Now().Add(300 * time.Second)
 	for r.db.VerifNumImm() > 0 {
 		n := r.db.VerifNumImm()
-		if !r.gate.WaitParked(1, 10*time.Second) {
+		if !r.gate.WaitParked(1, 120*time.Second) {
 			return fmt.Errorf("flusher did not reach flush.start")
 		}
 		r.gate.Release(nil)
@@ -631,7 +638,13 @@ func (r *runner) exec(o Op) (uint64, error) {
 		}
 		return db.MaxVersion(), nil
 	case "rotate":
-		_, err := db.VerifRotate()
+		n := r.gate.NumParked()
+		ok, err := db.VerifRotate()
+		if ok && err == nil {
+			// the flusher picks the memtable up at once and parks at its gate: wait for it, so
+			// that its flush.start event always falls inside this operation
+			r.gate.WaitParked(n+1, 120*time.Second)
+		}
 		return 0, err
 	case "flush":
 		if _, err := db.VerifRotate(); err != nil {
@@ -712,10 +725,12 @@ func (r *runner) run() error {
 		if err != nil {
 			return fmt.Errorf("op %d (%s): %v", i, o.Op, err)
 		}
+		lv := visibleOf(r.db, 6)
 		r.mu.Lock()
 		r.inop = false
 		r.done = i + 1
 		r.commTs = append(r.commTs, ts)
+		r.live = append(r.live, lv)
 		if r.ackLog != nil {
 			fmt.Fprintf(r.ackLog, "done %d %d\n", i, ts)
 		}
@@ -794,7 +809,7 @@ func cmdRun(args []string) {
 		}
 		metas[i] = imgMeta{im.Evs, im.Points, im.Kinds, im.Op, im.InOp, im.Done, im.ManApp, im.Torn, im.Note, fl}
 	}
-	meta := map[string]interface{}{"events": r.n, "images": metas, "commitTs": r.commTs,
+	meta := map[string]interface{}{"events": r.n, "images": metas, "commitTs": r.commTs, "live": r.live,
 		"kinds": r.nkinds, "wall_ms": time.Since(t0).Milliseconds(), "blobs": len(r.store.blobs)}
 	b, _ := json.Marshal(meta)
 	if err := os.WriteFile(filepath.Join(*out, "run.json"), b, 0o644); err != nil {
@@ -987,6 +1002,13 @@ func observe(dir string, enc, reopen2 bool) (o Obs) {
 			o.ProbeErr = err.Error()
 		}
 	}
+	if reopen2 {
+		// keep using the recovered files: flush (a MANIFEST append lands behind whatever Open
+		// left in the MANIFEST) before closing, then open once more
+		if err := db.VerifFlush(); err != nil {
+			o.Reopen2Err = "flush: " + err.Error()
+		}
+	}
 	if err := db.Close(); err != nil {
 		o.CloseErr = err.Error()
 	}
@@ -998,6 +1020,9 @@ func observe(dir string, enc, reopen2 bool) (o Obs) {
 		}
 		d2, _ := dumpAll(db2)
 		o.Reopen2Eq = dumpKey(d2) == dumpKey(o.Dump)
+		if !o.Reopen2Eq && o.Reopen2Err == "" {
+			o.Reopen2Err = "state after a further flush, close and re-open differs: " + trunc([]byte(dumpKey(d2))) + " vs " + trunc([]byte(dumpKey(o.Dump)))
+		}
 		if err := db2.Close(); err != nil {
 			o.Reopen2Err = "close: " + err.Error()
 		}
@@ -1128,7 +1153,7 @@ func cmdTorn(args []string) {
 				if err := vh.WriteDirImage(dir, append(append([]vh.FileImage{}, files...), vh.CutFile(man, x, man.Size, fill))); err != nil {
 					vh.Fatalf("write: %v", err)
 				}
-				o := observe(dir, set.Enc, false)
+				o := observe(dir, set.Enc, true)
 				o.Img = i
 				os.RemoveAll(dir)
 				enc.Encode(map[string]interface{}{"obs": o, "x": x, "rel": x - start, "fill": fill, "len": im.Torn})
